@@ -413,9 +413,14 @@ pub fn drive(a: &Args) {
         let r = catch_unwind(AssertUnwindSafe(|| drop(sink.take())));
         if let Some(w) = &weak {
             // behind a queuing wrapper the sink is released by the worker thread once it has stopped
+            static EXPIRED_W: std::sync::atomic::AtomicU64 = std::sync::atomic::AtomicU64::new(0);
+            let limit = if EXPIRED_W.load(std::sync::atomic::Ordering::Relaxed) >= 2 { Duration::from_secs(1) } else { Duration::from_secs(10) };
             let t0 = Instant::now();
-            while w.upgrade().is_some() && t0.elapsed() < Duration::from_secs(10) {
+            while w.upgrade().is_some() && t0.elapsed() < limit {
                 std::thread::sleep(Duration::from_micros(200));
+            }
+            if w.upgrade().is_some() {
+                EXPIRED_W.fetch_add(1, std::sync::atomic::Ordering::Relaxed);
             }
         }
         for h in take_hooks() {
@@ -985,15 +990,22 @@ pub fn stack(a: &Args) {
         hk(Hk::DropEnd(me));
         }
         // the worker drains, stops and releases the wrapped sink: wait for it (bounded)
+        // (after two such waits have expired the tree is known to be broken: the rest wait one second, the check must end)
+        static EXPIRED: std::sync::atomic::AtomicU64 = std::sync::atomic::AtomicU64::new(0);
+        let limit = if EXPIRED.load(std::sync::atomic::Ordering::Relaxed) >= 2 { Duration::from_secs(1) } else { Duration::from_secs(10) };
         let t0 = Instant::now();
         let mut released = false;
-        while t0.elapsed() < Duration::from_secs(10) {
+        while t0.elapsed() < limit {
             if HOOKS.lock().unwrap().iter().any(|h| matches!(h, Hk::WDropped(_))) {
                 released = true;
                 break;
             }
             std::thread::sleep(Duration::from_micros(200));
         }
+        if !released {
+            EXPIRED.fetch_add(1, std::sync::atomic::Ordering::Relaxed);
+        }
+        let give_up = EXPIRED.load(std::sync::atomic::Ordering::Relaxed) >= 4;
         std::thread::sleep(Duration::from_millis(5)); // the BufWriter's Drop runs right after LogSink::drop
         let hooks = take_hooks();
         let mut rcv: VecDeque<Vec<u8>> = wire.drain(0, Duration::from_millis(30)).into();
@@ -1089,6 +1101,10 @@ pub fn stack(a: &Args) {
         }
         if run == 0 {
             sample = json!({"sink":if udp {"BufferedUdpMetricSink"} else {"BufferedSpyMetricSink"},"cap":cap,"queue_cap":qcap,"calls":n});
+        }
+        if give_up {
+            // the wrapped sink was not released in four runs: broken beyond doubt, the evidence is in the traces
+            break;
         }
     }
     cadence::verif::install(None);
